@@ -10,10 +10,10 @@ MID = 'BacktestDataHandler.get_asset_latest_mid_price'
 
 
 def check(ctx):
-    cadence(ctx, 'C16.S1')
-    s2_keys(ctx)
-    s3_slots(ctx)
-    s4_entry(ctx)
+    ctx.sub(cadence, 'C16.S1')
+    ctx.sub(s2_keys)
+    ctx.sub(s3_slots)
+    ctx.sub(s4_entry)
 
 
 # ------------------------------------------------------------------------------------------------ S1
